@@ -13,7 +13,11 @@ RULE = ("random context-free grammars restricted to useful symbols (the library'
         "the tree checker and compared with the reference LL(1) parse), NotParsableException otherwise. Non-trivial: "
         ">=2 productions, one with a body of length >=2.")
 LEVEL = "proof"
-THEOREMS = ["Pfl.LL1Lib.firstSet_spec",
+THEOREMS = ["Pfl.LL1Lib.firstSet_isSome",
+            "Pfl.LL1Lib.followSet_isSome",
+            "Pfl.LL1Lib.isLLOne_isSome",
+            "Pfl.LL1Lib.firstSet_linear_bound_false",
+            "Pfl.LL1Lib.firstSet_spec",
             "Pfl.LL1Lib.firstSet_ter",
             "Pfl.LL1Lib.followSet_spec",
             "Pfl.LL1Lib.table_spec",
